@@ -4,8 +4,10 @@
 # touched packages (and of packages whose contracts mention them) there, recording
 # which obligations fail and which properties those obligations serve.
 # usage: run_matrix.sh [seed-dir-names...]   (default: all of /verif/seeded)
+# CONFORM_ONLY=1: run only the bounded harnesses (results in _results/<seed>.conform.txt,
+# merged by matrix_table.py with the last full run of the seed)
 cd /verif
-WT=/tmp/matrix_wt
+WT=/tmp/matrix_wt_$$
 git -C /repo worktree remove --force $WT 2>/dev/null
 git -C /repo worktree add --detach $WT HEAD -q || exit 2
 seeds="$@"; [ -z "$seeds" ] && seeds=$(ls seeded | grep '^C[0-9][0-9]-')
@@ -25,13 +27,14 @@ for s in $seeds; do
     done
   done
   pkgs=$(echo "$pkgs" | tr ',' '\n' | grep -v '^$' | sed 's#^\.$#sonic#' | sort -u | paste -sd,)
-  out=$(GOWP_REPO=$WT GOWP_NOEVIDENCE=1 GOWP_PKGS="$pkgs" bin/gowp check ALL 2>&1); rc=$?
+  sfx=txt; [ -n "$CONFORM_ONLY" ] && sfx=conform.txt
+  out=$(GOWP_REPO=$WT GOWP_NOEVIDENCE=1 GOWP_ONLYCONFORM=$CONFORM_ONLY GOWP_PKGS="$pkgs" bin/gowp check ALL 2>&1); rc=$?
   nf=$(echo "$out" | grep -c '^FAILED')
   props=$(echo "$out" | grep '^FAILED' | sed 's/^FAILED\[\([^]]*\)\].*/\1/' | tr ',' '\n' | sort -u | paste -sd,)
   own=no; echo ",$props," | grep -q ",$prop," && own=yes
   broken=$(echo "$out" | grep -c '^BROKEN')
   first=$(echo "$out" | grep -m1 '^FAILED' | cut -c1-220)
-  { echo "$s: failed=$nf broken=$broken caught_by_props=[$props] own_property=$own pkgs=$pkgs"; echo "$out" | grep -E '^FAILED|^BROKEN' | cut -c1-260; echo "$out" | tail -1; } > /verif/seeded/_results/$s.txt
+  { echo "$s: failed=$nf broken=$broken caught_by_props=[$props] own_property=$own pkgs=$pkgs"; echo "$out" | grep -E '^FAILED|^BROKEN' | cut -c1-260; echo "$out" | tail -1; } > /verif/seeded/_results/$s.$sfx
   echo "$s: failed=$nf broken=$broken props=[$props] own=$own :: $first"
 done
 git -C /repo worktree remove --force $WT
